@@ -444,6 +444,9 @@ const GOOD_TEMPLATES: &[&str] = &[
     "@()\n@* only a comment *@\n",
     "@(a: &str, b: i32)\n@a/@b \u{e9}\u{1F600}\n",
     "@use std::fmt::Display;\n@(x: &dyn Display)\n@x\n",
+    // several use lines, one of them repeated: each becomes the identical `use` item, in source order
+    "@use std::fmt::Display;\n@use std::io::Write as _;\n@use std::fmt::Display;\n@use super::Html as Markup;\n@use std::collections::BTreeMap;\n@use std::fmt::Debug;\n@use std::fmt::Display;\n@(x: &dyn Display)\n<b>@x</b>\n",
+    "@use a::b;\n@use c::d;\n@use a::b;\n@use e::f;\n@use g::h;\n@use i::j;\n@()\nrepeated uses\n",
 ];
 const BAD_TEMPLATES: &[&str] = &["@(\n", "@()\n@if x {", "no declaration", "@()\n@for a b {}", "@()\n\u{e9}@{x}@(", "@()\n@* \u{e5} *@ @if { x }"];
 const DIRS: &[&str] = &["sub", "admin", "a", "b2", "deep_dir", "x"];
